@@ -353,6 +353,25 @@ func TestExhaustivePrefix(t *testing.T) {
 		}
 	}
 	st.Count("lists_total", len(lists))
+	// registration calls with an empty argument list configure no condition at all: "no conditions are configured and it
+	// carries an error" still decides (only as the sole registrations: next to real conditions the statement is silent)
+	if shard%of == 0 {
+		for _, l := range [][]c.Cond{{{K: "errs"}}, {{K: "errs"}, {K: "errs"}}} {
+			for v := 0; v <= 3; v++ {
+				for _, e := range c.AllErrs {
+					tc := tcase{Conds: l, V: v, E: e}
+					want := e != ""
+					for name, f := range map[string]func(tcase) (bool, string){"fallback": viaFallback, "retry": viaRetry, "breaker-exec": viaBreakerExec} {
+						got, detail := f(tc)
+						if detail != "" || got != want {
+							harness.Violation(t, prop, "TestExhaustivePrefix", "classification-empty-registration", tc, "HandleErrors() with no arguments, outcome (%d,%s): %s treats it as failure=%v %s; with no condition configured an outcome is a failure exactly when it carries an error", v, e, name, got, detail)
+						}
+					}
+					st.Case(fmt.Sprintf("empty-registration/%d/%d/%s", len(l), v, e), e != "", "empty-registration")
+				}
+			}
+		}
+	}
 }
 
 func genCase(t *rapid.T) tcase {
